@@ -341,6 +341,8 @@ func (ex *Exec) constValue(c *ssa.Const) Value {
 			return ex.ts.Const(s, u)
 		case b.Info()&types.IsString != 0:
 			return ex.strConst(constant.StringVal(c.Value))
+		case b.Info()&types.IsFloat != 0:
+			return FVal{"const:" + c.Value.ExactString(), nil}
 		}
 	}
 	panic(unsupported("const of type " + c.Type().String()))
@@ -1124,7 +1126,18 @@ func (ex *Exec) convert(v Value, from, to types.Type) Value {
 			for _, s := range r.segs {
 				if s.opaque {
 					if s.rn == nil {
-						panic(unsupported("[]rune of opaque non-rune segment"))
+						if s.ln != s.wd {
+							panic(unsupported("[]rune of opaque non-ASCII segment"))
+						}
+						// an ASCII segment of symbolic length (a %d rendering): case-split its length, one width-1 rune per byte
+						n := int(ex.concretize(s.ln))
+						one := ex.ts.Const(64, 1)
+						for k := 0; k < n; k++ {
+							rn := ex.nondet(32)
+							ex.side[rn] = Seg{opaque: true, ln: one, wd: one, rn: rn}
+							runes = append(runes, rn)
+						}
+						continue
 					}
 					runes = append(runes, s.rn)
 				} else {
